@@ -237,3 +237,38 @@ Definition us : list Z := [2;7;1;8;2;8;1;8;2;8]%Z.
 Eval vm_compute in g_admm_update_z Z 0%Z Z.add Z.sub Z.mul Z.div Z.ltb (fun z => z) unit (np_sum 0%Z Z.add)
    (fun _ b r c N W => Ret (b + 2*r + c)%Z) (mk_admm_args 2 2 3%Z tt) us xs.
 Eval vm_compute in z_update 0%Z 1%Z Z.add Z.sub Z.mul Z.div Z.ltb Z.of_nat 3%Z (fun b r c => Z.of_nat (b + 2*r + c)) 2 2 us xs.
+
+(* ---- check_convergence as translated = the model's tolerance test (the five norms are np.linalg.norm of the
+   vectors the code forms; np.linalg.norm, math.sqrt and the literal 0.0001 are uninterpreted) ---- *)
+Section C.
+  Variable F : Type.
+  Variables (add sub mul : F -> F -> F) (sqrt : F -> F) (ltb leb : F -> F -> bool).
+  Variable of_nat : nat -> F.
+  Variable of_int : Z -> F.
+  Variable flit : string -> F.
+  Variable np_norm : list F -> F.
+  Hypothesis of_int_nat : forall n : nat, of_int (Z.of_nat n) = of_nat n.
+
+  Theorem g_check_convergence_eq (abs_tol rel_tol rho : F) (verbose : bool) (u x z z_old : list F) :
+    length x = length z -> length z = length z_old ->
+    let nx := np_norm x in
+    let nz := np_norm z in
+    let nru := np_norm (map (mul rho) u) in
+    let rp := np_norm (map2 sub x z) in
+    let rd := np_norm (map (mul rho) (map2 sub z z_old)) in
+    let tols := tolerances add mul sqrt ltb of_nat (length x) abs_tol rel_tol (flit "0.0001") nx nz nru in
+    g_check_convergence F add sub mul ltb of_int leb flit sqrt np_norm
+                        (mk_admm_tol_args abs_tol rel_tol rho verbose) u x z z_old
+    = Ret (converged add mul sqrt ltb leb of_nat (length x) abs_tol rel_tol (flit "0.0001") nx nz nru rp rd,
+           rp, fst tols, rd, snd tols).
+  Proof.
+    intros Hxz Hzz nx nz nru rp rd tols.
+    unfold g_check_convergence.
+    rewrite (np_bin_vv_eq sub x z Hxz). cbn [bind].
+    rewrite (np_bin_vv_eq sub z z_old Hzz). cbn [bind].
+    cbn [at_absolute_tolerance at_relative_tolerance at_rho at_verbose].
+    unfold py_len. rewrite of_int_nat.
+    destruct verbose; cbn [bind]; unfold converged, tols, tolerances, pmax; reflexivity.
+  Qed.
+End C.
+Print Assumptions g_check_convergence_eq.
